@@ -21,6 +21,7 @@ EXPLANATION = (
     "fallback of the reader derives its descriptor from the CURRENT line only (no state carried between lines). NOT decided: "
     "value identity after the round trip (big ints, NaN, surrogates inside json)."
     " Also decided (rules added after the fifth blind round): (R14.6) generated constructor code (records with keyword field names are built by keyword) never uses a generic field value as a truth value; (R14.3) the descriptor handler is registered exactly when descriptors are enabled."
+    " Rules added after the sixth blind round: (R14.7 = R5.4 of C05) the digest setters validate before they store (the JSON form is the hex attributes)."
 )
 RULE_SUMMARY = "instances: encoder branches, decoder conversions, per-field normalisations, writer/line sites, fallback definitions"
 
